@@ -268,4 +268,21 @@ PROPS = {
             {"name": "fuzz_sections", "fuzz": "FuzzC03Sections", "thorough": {"fuzztime": "120s", "timeout": 600}},
         ],
     },
+    "C06": {
+        "level": "fault_enumeration",
+        "level_text": "for every generated stream every single-packet duplication and deletion position is enumerated (and the same positions marked "
+                      "with transport_error_indicator), plus random multi-fault patterns (bursts < 16, several duplicates); outputs of the faulted "
+                      "stream are compared with the clean stream's per PID under the subsequence / identity relations the property states",
+        "level_note": "trusts the reference multiplexer for the unit/packet mapping; a 15-packet burst between packets with identical payload is a "
+                      "permitted duplicate and is skipped (counted); finding K1 (fragment beginning 00 00 01 delivered as PES) is listed in KNOWN_FINDINGS.txt",
+        "technique": "exhaustive single-fault enumeration + rapid multi-fault patterns with metamorphic/differential oracle (faulted vs clean stream)",
+        "rule": "rapid-generated streams x all duplication/deletion/TEI positions; rapid fault patterns; non-trivial = every stream with >= 1 deletion position / "
+                "a burst >= 2 or >= 2 faults; distinct by stream bytes (+ fault pattern)",
+        "assumptions": ["a deletion is only applied where a later payload packet of the PID exists (otherwise the counter cannot reveal the gap)"],
+        "units": [
+            rap("single_faults", "^TestC06Single$", 40, 400, 6, 16),
+            rap("multi_faults", "^TestC06Multi$", 1500, 15000, 4, 16),
+            det("known_finding_probe", "^TestC06KnownK1$"),
+        ],
+    },
 }
